@@ -583,12 +583,32 @@ def _chain(expr, aliases):
     return base, idx
 
 
-def _writes_in(nodes, scope=None):
+def _writes_in(nodes, scope=None, cls=None, _depth=0):
     """(view, [index texts], kind, stored text) for writes in a stmt list;
     local aliases of a view cell (defined anywhere in `scope`, default the
-    statements themselves) are seen through."""
+    statements themselves) are seen through, and (with `cls`) so are calls
+    of the class's own helper methods (parameters replaced by the argument
+    texts, one level)."""
     out = []
     aliases = _view_aliases(scope if scope is not None else nodes)
+    if cls is not None and _depth < 2:
+        for st in nodes:
+            for n in ast.walk(st):
+                if isinstance(n, ast.Call) and isinstance(n.func, ast.Attribute) \
+                        and isinstance(n.func.value, ast.Name) \
+                        and n.func.value.id == "self" \
+                        and n.func.attr in cls.methods \
+                        and n.func.attr.startswith("_"):
+                    g = cls.methods[n.func.attr]
+                    params = g.params[1:]
+                    sub = {p: dotted(a) for p, a in zip(params, n.args)}
+                    sub.update({k.arg: dotted(k.value) for k in n.keywords
+                                if k.arg})
+                    for x in _writes_in(g.node.body, g.node.body, cls,
+                                        _depth + 1):
+                        idx = [sub.get(i, i) for i in x[1]]
+                        out.append((x[0], idx, x[2], sub.get(x[3], x[3]),
+                                    x[4]))
 
     def sub_chain(e):
         return _chain(e, aliases)
@@ -811,7 +831,7 @@ def rule_v2(ctx):
         src = dotted(lp.iter)
         kind = "out" if "neighbors_out" in src or "_out_dict" in src else (
             "in" if "neighbors_in" in src or "_in_dict" in src else None)
-        for x in _writes_in(lp.body, scope=f.node.body):
+        for x in _writes_in(lp.body, scope=f.node.body, cls=cls):
             if x[2] == "pop" and len(x[1]) == 1:
                 pairing.setdefault(kind, set()).add(x[0])
     want = {"out": {"in"}, "in": {"out", "graph"}}
